@@ -70,10 +70,10 @@ $(B)/libvotca.a: $(LIB_OBJ)
 	@rm -f $@
 	ar rcs $@ $^
 
-# the simulator runs all tasks on one OS thread: thread_local storage in the code under test would be shared
-# between the simulated threads.  Refuse to build rather than report results that mean nothing.
+# thread_local storage of the code under test: every simulated task has its own copy of the executable's static TLS
+# block (sim/core/sim.cc), so nothing has to be refused here any more; the objects that use it are listed for the record
 define TLS_CHECK
-	@for o in $(1); do if readelf -S $$o | grep -q '\.tbss\|\.tdata'; then echo "HARNESS-ERROR thread_local storage in $$o: not supported by the coroutine simulator (DESIGN.md section 7)"; exit 1; fi; done
+	@for o in $(1); do if readelf -S $$o | grep -q '\.tbss\|\.tdata'; then echo "NOTE thread_local storage in $$o: one copy per simulated task"; fi; done
 endef
 
 # ---- tool sources with renamed main ---------------------------------------
